@@ -44,8 +44,13 @@ func readRaw(rd io.Reader) (rawPkt, error) {
 	return rawPkt{int32(binary.LittleEndian.Uint32(body)), int32(binary.LittleEndian.Uint32(body[4:])), string(body[8 : n-2])}, nil
 }
 
-func textPayload(r *vm.Rand) string {
+// textPayload: in two thirds of the sessions (raw == false) a text of at most 1000 bytes without 0x00; in the others
+// whatever genPayload gives, up to the maximal payload and with 0x00 bytes.
+func textPayload(r *vm.Rand, raw bool) string {
 	b := genPayload(r)
+	if raw {
+		return string(b)
+	}
 	for i := range b {
 		if b[i] == 0 {
 			b[i] = 'z'
@@ -65,13 +70,20 @@ func libraryClientAgainstPeer(c *vm.Ctx, r *vm.Rand) {
 		return
 	}
 	defer ln.Close()
-	serverPW, cmd, resp := textPayload(r), textPayload(r), textPayload(r)
+	raw := r.Intn(3) == 0
+	serverPW, cmd, resp := textPayload(r, raw), textPayload(r, raw), textPayload(r, raw)
 	clientPW := serverPW
 	match := r.Intn(3) != 0
 	if !match {
-		clientPW = serverPW + "x"
+		if len(serverPW) < maxPayload {
+			clientPW = serverPW + "x"
+		} else {
+			clientPW = serverPW[1:]
+		}
 	}
-	wit := func() any { return map[string]any{"peer": "hand-written server", "passwords_equal": match, "command": cmd} }
+	wit := func() any {
+		return map[string]any{"peer": "hand-written server", "passwords_equal": match, "server_password": serverPW, "command": cmd, "response_bytes": len(resp)}
+	}
 	type seen struct {
 		login, command rawPkt
 		err            error
@@ -152,6 +164,12 @@ func libraryClientAgainstPeer(c *vm.Ctx, r *vm.Rand) {
 		return
 	}
 	c.Cover("peer.client-ok")
+	if strings.IndexByte(cmd, 0) >= 0 && strings.IndexByte(resp, 0) >= 0 {
+		c.Cover("peer.client-ok.payloads-with-nul")
+	}
+	if len(cmd) == maxPayload || len(resp) == maxPayload || len(serverPW) == maxPayload {
+		c.Cover("peer.client-ok.max-payload")
+	}
 }
 
 // libraryServerAgainstPeer: AcceptLogin / AcceptCmd / RespCmd against a hand-written client.
@@ -161,11 +179,28 @@ func libraryServerAgainstPeer(c *vm.Ctx, r *vm.Rand) {
 	defer b.Close()
 	a.SetDeadline(time.Now().Add(20 * time.Second))
 	b.SetDeadline(time.Now().Add(20 * time.Second))
-	serverPW, cmd, resp := textPayload(r), textPayload(r), textPayload(r)
+	raw := r.Intn(3) == 0
+	serverPW, cmd, resp := textPayload(r, raw), textPayload(r, raw), textPayload(r, raw)
 	clientPW := serverPW
 	match := r.Intn(3) != 0
 	if !match {
-		clientPW = "x" + serverPW
+		if len(serverPW) < maxPayload {
+			clientPW = "x" + serverPW
+		} else {
+			clientPW = serverPW[1:]
+		}
+	}
+	// the packet types the client uses: 3 for the login and 2 for the command, or - in some sessions with the right
+	// password - another type for one of the two: such a first frame is not a login and such a second frame is not a
+	// command, whatever they carry
+	loginType, cmdType := int32(3), int32(2)
+	if match {
+		switch r.Intn(8) {
+		case 0:
+			loginType = []int32{2, 0, 1, -1, 3 | 1<<8, 3 | -1<<31}[r.Intn(6)]
+		case 1:
+			cmdType = []int32{3, 0, 1, -1, 2 | 1<<8, 2 | -1<<31}[r.Intn(6)]
+		}
 	}
 	// any request id, -1 included: on the wire -1 is how a refusal looks, but whether the server lets the client in is
 	// decided by the password alone
@@ -174,11 +209,13 @@ func libraryServerAgainstPeer(c *vm.Ctx, r *vm.Rand) {
 		loginID = -1
 	}
 	wit := func() any {
-		return map[string]any{"peer": "hand-written client", "passwords_equal": match, "login_id": loginID, "command_id": cmdID}
+		return map[string]any{"peer": "hand-written client", "passwords_equal": match, "server_password": serverPW, "login_id": loginID, "login_type": loginType,
+			"command_id": cmdID, "command_type": cmdType, "command": cmd, "response_bytes": len(resp)}
 	}
 	type res struct {
 		loginErr, cmdErr error
 		cmd              string
+		cmdAccepted      bool // AcceptCmd returned without error
 		panicked         any
 	}
 	ch := make(chan res, 1)
@@ -196,14 +233,15 @@ func libraryServerAgainstPeer(c *vm.Ctx, r *vm.Rand) {
 		if s.cmd, s.cmdErr = srv.AcceptCmd(); s.cmdErr != nil {
 			return
 		}
+		s.cmdAccepted = true
 		s.cmdErr = srv.RespCmd(resp)
 	}()
 	var ans, rp rawPkt
 	var e1, e2 error
-	a.Write(refFrame(loginID, 3, []byte(clientPW)))
+	a.Write(refFrame(loginID, loginType, []byte(clientPW)))
 	ans, e1 = readRaw(a)
-	if e1 == nil && match {
-		a.Write(refFrame(cmdID, 2, []byte(cmd)))
+	if e1 == nil && match && loginType == 3 {
+		a.Write(refFrame(cmdID, cmdType, []byte(cmd)))
 		rp, e2 = readRaw(a)
 	}
 	a.Close()
@@ -219,6 +257,20 @@ func libraryServerAgainstPeer(c *vm.Ctx, r *vm.Rand) {
 		c.Violation("peer/server-panic", fmt.Sprint("server side panicked: ", s.panicked), wit())
 		return
 	}
+	if loginType != 3 {
+		// the right password in a frame that is not a login: nobody logged in. The server must report that, and whatever
+		// it answers (the library answers nothing) must not be the acceptance, i.e. the frame's id echoed.
+		if s.loginErr == nil {
+			c.Violation("peer/server-login-wrong-type-accepted", fmt.Sprintf("AcceptLogin returned nil for a first frame of type %d (a login has type 3) carrying the password", loginType), wit())
+			return
+		}
+		if e1 == nil && ans.id == loginID && loginID != -1 {
+			c.Violation("peer/server-login-wrong-type-answered", fmt.Sprintf("a first frame of type %d (a login has type 3) was answered with its own id %d, which is how an acceptance looks", loginType, loginID), wit())
+			return
+		}
+		c.Cover("peer.server-rejects-login-type")
+		return
+	}
 	if e1 != nil {
 		c.Violation("peer/server-login-answer-unreadable", "the server's answer to a login is not a frame: "+e1.Error(), wit())
 		return
@@ -228,6 +280,11 @@ func libraryServerAgainstPeer(c *vm.Ctx, r *vm.Rand) {
 			c.Violation("peer/server-refusal", fmt.Sprintf("wrong password: the answer has id %d (protocol: -1), AcceptLogin returned %v", ans.id, s.loginErr), wit())
 			return
 		}
+		if ans.typ != 2 || ans.payload != "" {
+			c.Violation("peer/server-refusal-frame", fmt.Sprintf("wrong password: the answer has type %d and %d payload bytes; the protocol's refusal is the frame %s", ans.typ, len(ans.payload), vm.Hex(refFrame(-1, 2, nil))), wit())
+			return
+		}
+		c.Cover("peer.server-refusal-frame-exact")
 		c.Cover("peer.server-refuses")
 		if loginID == -1 {
 			c.Cover("peer.server-refuses.login-id-minus-one")
@@ -236,6 +293,20 @@ func libraryServerAgainstPeer(c *vm.Ctx, r *vm.Rand) {
 	}
 	if ans.id != loginID || ans.typ != 2 || s.loginErr != nil {
 		c.Violation("peer/server-login-answer", fmt.Sprintf("right password: the answer has id %d type %d (protocol: the login's id %d, type 2), AcceptLogin returned %v", ans.id, ans.typ, loginID, s.loginErr), wit())
+		return
+	}
+	if ans.payload != "" {
+		c.Violation("peer/server-login-answer-payload", fmt.Sprintf("right password: the answer carries %d payload bytes; the protocol's acceptance is the frame %s", len(ans.payload), vm.Hex(refFrame(loginID, 2, nil))), wit())
+		return
+	}
+	c.Cover("peer.server-acceptance-frame-exact")
+	if cmdType != 2 {
+		// logged in, then a frame that is not a command
+		if s.cmdAccepted {
+			c.Violation("peer/server-command-wrong-type-accepted", fmt.Sprintf("AcceptCmd returned nil for a frame of type %d (a command has type 2)", cmdType), wit())
+			return
+		}
+		c.Cover("peer.server-rejects-command-type")
 		return
 	}
 	if e2 != nil || s.cmdErr != nil {
@@ -251,4 +322,10 @@ func libraryServerAgainstPeer(c *vm.Ctx, r *vm.Rand) {
 		return
 	}
 	c.Cover("peer.server-ok")
+	if strings.IndexByte(cmd, 0) >= 0 && strings.IndexByte(resp, 0) >= 0 {
+		c.Cover("peer.server-ok.payloads-with-nul")
+	}
+	if len(cmd) == maxPayload || len(resp) == maxPayload || len(serverPW) == maxPayload {
+		c.Cover("peer.server-ok.max-payload")
+	}
 }
